@@ -90,7 +90,7 @@ pub mod comp {
     use crate::p3::bounding_volume::Aabb;
     use crate::p3::na::{self, DMatrix};
     use crate::p3::query::{self, ClosestPoints, DefaultQueryDispatcher, NonlinearRigidMotion, PointQuery, QueryDispatcher, Ray, RayCast, ShapeCastOptions};
-    use crate::p3::shape::{Compound, HeightField, Polyline, Shape, SharedShape, TriMesh};
+    use crate::p3::shape::{Ball, Compound, HeightField, Polyline, Shape, SharedShape, TriMesh};
     use crate::p3::utils::IsometryOpt;
     use d3::{Isometry, Point, Real, Vector};
 
@@ -178,10 +178,40 @@ pub mod comp {
                 let got = if first { query::cast_shapes_nonlinear(&mc, &*gc, &mx, &*gx, t0, t1, stop) } else { query::cast_shapes_nonlinear(&mx, &*gx, &mc, &*gc, t0, t1, stop) };
                 let got = match got { Ok(v) => v, Err(_) => return "unsupported ; unsupported".into() };
                 // per part, as the visitor does it: the part's motion is the composite's motion with the part pose prepended
-                let bf = minf(ps.iter().filter_map(|(pp, s)| {
+                let tois: Vec<Option<f64>> = ps.iter().map(|(pp, s)| {
                     let mp = match pp { Some(pp) => mc.prepend(*pp), None => mc };
-                    d.cast_shapes_nonlinear(&mp, &**s, &mx, &*gx, t0, t1, stop).ok().flatten().map(|h| h.time_of_impact) }));
-                format!("{} ; {} ; lim {}", fo(got.map(|h| h.time_of_impact)), fo(bf), ff(t1))
+                    d.cast_shapes_nonlinear(&mp, &**s, &mx, &*gx, t0, t1, stop).ok().flatten().map(|h| h.time_of_impact) }).collect();
+                let bf = minf(tois.iter().filter_map(|x| *x));
+                // root-cause qualifier: when the composite misses the earliest part, was it the pruning logic or the pruning
+                // PRIMITIVE?  The visitor masks a lane with the real ball-vs-ball nonlinear cast of the lane box's ball against the
+                // other shape's bounding ball; if for some lane on the path from the root to that part this very cast reports no
+                // impact up to the part's own time of impact, the primitive is not conservative (a defect of
+                // `cast_shapes_nonlinear_support_map_support_map`, property C06); otherwise the traversal lost the part
+                let mut qual = String::new();
+                if let Some(tb) = bf {
+                    if got.map(|h| h.time_of_impact > tb + 1.0e-4 * (1.0 + tb)).unwrap_or(true) {
+                        let i = tois.iter().position(|x| *x == Some(tb)).unwrap();
+                        let sph2 = gx.compute_local_bounding_sphere();
+                        let b2 = Ball::new(sph2.radius());
+                        let m2 = mx.prepend_translation(sph2.center.coords);
+                        // every lane on the path root -> leaf of that part, with the ball the visitor builds for it
+                        let qb = gc.as_composite_shape().unwrap().qbvh();
+                        let (nodes, prox) = (qb.raw_nodes(), qb.raw_proxies());
+                        let mut ni = prox[i].node;
+                        for _ in 0..64 {
+                            let nd = &nodes[ni.index as usize];
+                            let bx = nd.simd_aabb.extract(ni.lane as usize);
+                            let b1 = Ball::new((bx.maxs - bx.mins).norm());
+                            let m1 = mc.prepend_translation(na::center(&bx.mins, &bx.maxs).coords);
+                            let rb = query::details::cast_shapes_nonlinear_support_map_support_map(&d, &m1, &b1, &b1, &m2, &b2, &b2, t0, t1,
+                                query::details::NonlinearShapeCastMode::StopAtPenetration).map(|h| h.time_of_impact);
+                            if rb.map(|x| x > tb + 1.0e-4 * (1.0 + tb)).unwrap_or(true) { qual = " ; primmiss".into(); break; }
+                            if ni.index == 0 { break; }
+                            ni = nd.parent;
+                        }
+                    }
+                }
+                format!("{} ; {} ; lim {}{}", fo(got.map(|h| h.time_of_impact)), fo(bf), ff(t1), qual)
             }
             // ---- pairwise queries: composite, pose, other shape, pose, order flag (1 = composite first)
             "composite_distance" | "composite_it" | "composite_cp" | "composite_contact" | "composite_cast" => {
@@ -709,10 +739,40 @@ pub mod comp2 {
                 let t0 = a.f(); let t1 = a.f(); let stop = a.b();
                 let got = if first { query::cast_shapes_nonlinear(&mc, &*gc, &mx, &*gx, t0, t1, stop) } else { query::cast_shapes_nonlinear(&mx, &*gx, &mc, &*gc, t0, t1, stop) };
                 let got = match got { Ok(v) => v, Err(_) => return "unsupported ; unsupported".into() };
-                let bf = minf(ps.iter().filter_map(|(pp, s)| {
+                let tois: Vec<Option<f64>> = ps.iter().map(|(pp, s)| {
                     let mp = match pp { Some(pp) => mc.prepend(*pp), None => mc };
-                    d.cast_shapes_nonlinear(&mp, &**s, &mx, &*gx, t0, t1, stop).ok().flatten().map(|h| h.time_of_impact) }));
-                format!("{} ; {} ; lim {}", fo(got.map(|h| h.time_of_impact)), fo(bf), ff(t1))
+                    d.cast_shapes_nonlinear(&mp, &**s, &mx, &*gx, t0, t1, stop).ok().flatten().map(|h| h.time_of_impact) }).collect();
+                let bf = minf(tois.iter().filter_map(|x| *x));
+                // root-cause qualifier: when the composite misses the earliest part, was it the pruning logic or the pruning
+                // PRIMITIVE?  The visitor masks a lane with the real ball-vs-ball nonlinear cast of the lane box's ball against the
+                // other shape's bounding ball; if for some lane on the path from the root to that part this very cast reports no
+                // impact up to the part's own time of impact, the primitive is not conservative (a defect of
+                // `cast_shapes_nonlinear_support_map_support_map`, property C06); otherwise the traversal lost the part
+                let mut qual = String::new();
+                if let Some(tb) = bf {
+                    if got.map(|h| h.time_of_impact > tb + 1.0e-4 * (1.0 + tb)).unwrap_or(true) {
+                        let i = tois.iter().position(|x| *x == Some(tb)).unwrap();
+                        let sph2 = gx.compute_local_bounding_sphere();
+                        let b2 = Ball::new(sph2.radius());
+                        let m2 = mx.prepend_translation(sph2.center.coords);
+                        // every lane on the path root -> leaf of that part, with the ball the visitor builds for it
+                        let qb = gc.as_composite_shape().unwrap().qbvh();
+                        let (nodes, prox) = (qb.raw_nodes(), qb.raw_proxies());
+                        let mut ni = prox[i].node;
+                        for _ in 0..64 {
+                            let nd = &nodes[ni.index as usize];
+                            let bx = nd.simd_aabb.extract(ni.lane as usize);
+                            let b1 = Ball::new((bx.maxs - bx.mins).norm());
+                            let m1 = mc.prepend_translation(na::center(&bx.mins, &bx.maxs).coords);
+                            let rb = query::details::cast_shapes_nonlinear_support_map_support_map(&d, &m1, &b1, &b1, &m2, &b2, &b2, t0, t1,
+                                query::details::NonlinearShapeCastMode::StopAtPenetration).map(|h| h.time_of_impact);
+                            if rb.map(|x| x > tb + 1.0e-4 * (1.0 + tb)).unwrap_or(true) { qual = " ; primmiss".into(); break; }
+                            if ni.index == 0 { break; }
+                            ni = nd.parent;
+                        }
+                    }
+                }
+                format!("{} ; {} ; lim {}{}", fo(got.map(|h| h.time_of_impact)), fo(bf), ff(t1), qual)
             }
             "composite2_aabb" => {
                 // `Qbvh::intersect_aabb` against the closed scalar test on the parts' own boxes
